@@ -7,6 +7,8 @@ package main
 
 import (
 	"bufio"
+	"bytes"
+	"encoding/gob"
 	"encoding/json"
 	"fmt"
 	"io"
@@ -42,6 +44,68 @@ type Opts struct {
 	Define      bool   `json:"define,omitempty"`
 	Drop        bool   `json:"drop,omitempty"`
 	LineLimit   int    `json:"line_limit,omitempty"`
+	// compiled / validated option values (config-field stream); []byte-safe: Go strings may hold invalid UTF-8,
+	// so they travel base64-encoded inside B64 maps/lists
+	DefineKV          map[string]string `json:"-"`
+	Pure              []string          `json:"-"`
+	ReserveProps      string            `json:"-"`
+	Alias             map[string]string `json:"-"`
+	External          []string          `json:"-"`
+	LoaderMap         map[string]string `json:"-"`
+	OutExtension      map[string]string `json:"-"`
+	Banner            map[string]string `json:"-"`
+	Footer            map[string]string `json:"-"`
+	EntryNames        string            `json:"-"`
+	ChunkNames        string            `json:"-"`
+	AssetNames        string            `json:"-"`
+	JSXFactory        string            `json:"-"`
+	JSXFragment       string            `json:"-"`
+	JSXImportSource   string            `json:"-"`
+	Conditions        []string          `json:"-"`
+	MainFields        []string          `json:"-"`
+	ResolveExtensions []string          `json:"-"`
+	DropLabels        []string          `json:"-"`
+	Inject            []string          `json:"-"`
+	PublicPath        string            `json:"-"`
+	SourceRoot        string            `json:"-"`
+	Supported         map[string]bool   `json:"-"`
+	LogOverride       map[string]string `json:"-"`
+	MangleCacheJSON   string            `json:"-"`
+	GlobEntries       bool              `json:"glob_entries,omitempty"`
+	Ext               []byte            `json:"ext,omitempty"` // gob encoding of the fields above
+}
+
+type optsExt struct {
+	DefineKV, Alias, LoaderMap, OutExtension, Banner, Footer, LogOverride                                                                                                                 map[string]string
+	Pure, External, Conditions, MainFields, ResolveExtensions, DropLabels, Inject                                                                                                         []string
+	ReserveProps, EntryNames, ChunkNames, AssetNames, JSXFactory, JSXFragment, JSXImportSource, PublicPath, SourceRoot, MangleCacheJSON, MangleProps, GlobalName, Sourcefile, TsconfigRaw string
+	Supported                                                                                                                                                                             map[string]bool
+}
+
+// packExt / unpackExt carry arbitrary byte strings (invalid UTF-8 included) across the JSON pipe
+func (o *Opts) packExt() {
+	e := optsExt{o.DefineKV, o.Alias, o.LoaderMap, o.OutExtension, o.Banner, o.Footer, o.LogOverride,
+		o.Pure, o.External, o.Conditions, o.MainFields, o.ResolveExtensions, o.DropLabels, o.Inject,
+		o.ReserveProps, o.EntryNames, o.ChunkNames, o.AssetNames, o.JSXFactory, o.JSXFragment, o.JSXImportSource, o.PublicPath, o.SourceRoot, o.MangleCacheJSON, o.MangleProps, o.GlobalName, o.Sourcefile, o.TsconfigRaw,
+		o.Supported}
+	var buf bytes.Buffer
+	gob.NewEncoder(&buf).Encode(e)
+	o.Ext = buf.Bytes()
+}
+
+func (o *Opts) unpackExt() {
+	if len(o.Ext) == 0 {
+		return
+	}
+	var e optsExt
+	if gob.NewDecoder(bytes.NewReader(o.Ext)).Decode(&e) != nil {
+		return
+	}
+	o.DefineKV, o.Alias, o.LoaderMap, o.OutExtension, o.Banner, o.Footer, o.LogOverride = e.DefineKV, e.Alias, e.LoaderMap, e.OutExtension, e.Banner, e.Footer, e.LogOverride
+	o.Pure, o.External, o.Conditions, o.MainFields, o.ResolveExtensions, o.DropLabels, o.Inject = e.Pure, e.External, e.Conditions, e.MainFields, e.ResolveExtensions, e.DropLabels, e.Inject
+	o.ReserveProps, o.EntryNames, o.ChunkNames, o.AssetNames, o.JSXFactory, o.JSXFragment, o.JSXImportSource, o.PublicPath, o.SourceRoot, o.MangleCacheJSON = e.ReserveProps, e.EntryNames, e.ChunkNames, e.AssetNames, e.JSXFactory, e.JSXFragment, e.JSXImportSource, e.PublicPath, e.SourceRoot, e.MangleCacheJSON
+	o.MangleProps, o.GlobalName, o.Sourcefile, o.TsconfigRaw = e.MangleProps, e.GlobalName, e.Sourcefile, e.TsconfigRaw
+	o.Supported = e.Supported
 }
 
 type Case struct {
@@ -170,6 +234,7 @@ func procCPU(pid int) (time.Duration, bool) {
 //   - "starved": no result after maxWall although the child neither burned `limit`
 //     of CPU nor was idle - inconclusive, never reported as a failure.
 func (w *worker) runOne(c *Case, limit time.Duration, maxWall time.Duration) (Outcome, bool) {
+	c.Opts.packExt()
 	data, _ := json.Marshal(c)
 	data = append(data, '\n')
 	type rd struct {
@@ -330,6 +395,7 @@ func workerMain() {
 			fmt.Fprintln(os.Stderr, "C16-WORKER: bad case:", err)
 			os.Exit(4)
 		}
+		c.Opts.unpackExt()
 		o := execCase(&c)
 		data, _ := json.Marshal(o)
 		wr.Write(data)
